@@ -29,7 +29,9 @@ from vf import core, corpus
 PROP = "C09"
 NEEDS_PARSER = True
 FLOOR = 0.30
-RULE = ("(a) files of the Python corpus (stdlib of /venv's interpreter + site-packages; quick: "
+RULE = ("(c) one fragment case in four embeds a whole for/while statement of the corpus (with "
+        "break/continue or nested loops) in a behavior body, the body or an interrupt handler of "
+        "a try-interrupt statement, a monitor or a compose block; (a) files of the Python corpus (stdlib of /venv's interpreter + site-packages; quick: "
         "seed-rotated sample of ~400 files <= 120 KB plus a fixed set of syntax-dense stdlib test "
         "files; thorough: every file) that CPython 3.12 parses, that do not use one of at/by/do/"
         "new/of/on/require/to/until as a NAME token, do not store to ego/workspace/"
@@ -218,12 +220,12 @@ def soft_head(py, lines, lineno):
     return None
 
 
-def compare_trees(py, sc, out, src, prefix="", star_wrapping=True):
+def compare_trees(py, sc, out, src, prefix="", star_wrapping=True, behavior_locals=False):
     """Record every difference between the two trees as failures of `out`."""
     old = sys.getrecursionlimit()
     sys.setrecursionlimit(max(old, 20000))
     try:
-        diffs, rewrites = D.diff_all(py, sc, star_wrapping, src)
+        diffs, rewrites = D.diff_all(py, sc, star_wrapping, src, behavior_locals)
     finally:
         sys.setrecursionlimit(old)
     lines = None
@@ -539,14 +541,14 @@ def _char_columns(ref, src):
             conv(ref.end_lineno, ref.end_col_offset))
 
 
-def _find_span(tree, ref, want=None):
+def _find_span(tree, ref, want=None, kind=ast.expr):
     """Nodes of the compiled tree with exactly the reference's source span, deepest first."""
     want = want or tuple(getattr(ref, a) for a in D.ATTRS)
     hits = []
     stack = [(tree, 0)]
     while stack:
         n, depth = stack.pop()
-        if isinstance(n, ast.expr) and tuple(getattr(n, a, None) for a in D.ATTRS) == want:
+        if isinstance(n, kind) and tuple(getattr(n, a, None) for a in D.ATTRS) == want:
             hits.append((depth, len(hits), n))
         for c in ast.iter_child_nodes(n):
             stack.append((c, depth + 1))
@@ -656,9 +658,145 @@ def judge_fragment(case):
     return out
 
 
+# ---------------------------------------------------------------------------------------------
+# (c) Python loop statements inside behaviors, try-interrupt blocks and compose blocks
+# ---------------------------------------------------------------------------------------------
+
+STMT_CONTEXTS = {
+    # name: (lines before the statement, indentation, lines after it)
+    "stmt-behavior": (["behavior VfB():"], 4, ["    wait"]),
+    "stmt-try-body": (["behavior VfB():", "    try:"], 8,
+                      ["    interrupt when _vf_c:", "        wait"]),
+    "stmt-interrupt": (["behavior VfB():", "    try:", "        wait", "    interrupt when _vf_c:"],
+                       8, []),
+    "stmt-monitor": (["monitor VfM():"], 4, ["    wait"]),
+    "stmt-compose": (["scenario VfS():", "    compose:"], 8, ["        wait"]),
+}
+
+
+@functools.lru_cache(maxsize=32)
+def eligible_statements(path):
+    """Unparsed `for` / `while` statements of a corpus file that contain break/continue or a
+    nested loop (the constructs whose compilation differs inside try-interrupt blocks)."""
+    src = corpus.read_python(path)
+    if src is None:
+        return ()
+    with warnings.catch_warnings():
+        warnings.simplefilter("ignore")
+        try:
+            tree = ast.parse(src)
+        except (SyntaxError, ValueError, RecursionError, MemoryError):
+            return ()
+    banned = set(D.HARD_KEYWORDS) | SOFT_KEYWORDS
+    bad = (ast.Return, ast.Yield, ast.YieldFrom, ast.Await, ast.Global, ast.Nonlocal,
+           ast.AsyncFor, ast.AsyncWith, ast.AsyncFunctionDef, ast.NamedExpr, ast.AnnAssign,
+           ast.TypeAlias, ast.ClassDef, ast.Import, ast.ImportFrom)
+    out = []
+    seen = set()
+    for n in ast.walk(tree):
+        if not isinstance(n, (ast.For, ast.While)):
+            continue
+        inner = list(ast.walk(n))
+        if len(inner) > 120 or n.end_lineno - n.lineno > 25:
+            continue
+        loops = sum(1 for c in inner if isinstance(c, (ast.For, ast.While)))
+        jumps = sum(1 for c in inner if isinstance(c, (ast.Break, ast.Continue)))
+        if loops < 2 and not jumps:
+            continue
+        if any(isinstance(c, bad) for c in inner):
+            continue
+        if any(i in banned for i in _identifiers(n)):
+            continue
+        if any(isinstance(c, ast.Name) and c.id in D.PROTECTED and not isinstance(c.ctx, ast.Load)
+               for c in inner):
+            continue  # builtin names "can be used but not overwritten"
+        try:
+            text = ast.unparse(n)
+            ast.parse(text)
+        except Exception:
+            continue
+        if text in seen or len(text) > 1500:
+            continue
+        seen.add(text)
+        out.append((text, loops, jumps))
+    return tuple(out)
+
+
+def judge_statement(case):
+    out = core.Outcome()
+    # the drawn file may contain no suitable loop: take the next corpus file that does
+    files = corpus.python_files()
+    start = files.index(case["file"]) if case["file"] in files else 0
+    stmts = ()
+    for k in range(40):
+        stmts = eligible_statements(files[(start + k) % len(files)])
+        if stmts:
+            break
+    if not stmts:
+        out.cls("stmt:no-eligible-loop")
+        return out
+    if case.get("prefer_nested"):
+        nested = [t for t in stmts if t[1] >= 2 and t[2]]
+        stmts = nested or stmts
+    text, loops, jumps = stmts[case["node"] % len(stmts)]
+    ctx = case["ctx"]
+    before, indent, after = STMT_CONTEXTS[ctx]
+    pad = ["# pad" if k % 2 else "" for k in range(case["pad"])]
+    body = [" " * indent + ln if ln.strip() else ln for ln in text.split("\n")]
+    src = "\n".join(pad + before + body + after) + "\n"
+    # CPython's tree for the same text at the same lines and columns
+    levels = indent // 4
+    first = len(pad) + len(before)  # 0-based line index of the statement
+    ref_lines = [""] * (first - levels) + [" " * (4 * k) + "if 1:" for k in range(levels)] + body
+    try:
+        ref = ast.parse("\n".join(ref_lines) + "\n")
+        node = ref.body[0]
+        for _ in range(levels - 1):
+            node = node.body[0]
+        ref_stmt = node.body[0]
+    except (SyntaxError, IndexError):
+        out.cls("stmt:reference-not-parsable")
+        return out
+    out.cls("stmt:" + ctx)
+    if loops >= 2 and jumps:
+        out.cls("stmt:nested-loops-with-jumps")
+    out.nontrivial = True
+    kind, res = _outcome_of(src)
+    if kind == "recursion":
+        out.inconclusive = True
+        return out
+    if kind != "ok":
+        what = "reject" if kind == "reject" else "crash"
+        out.fail(f"stmt:{ctx}:{what}|{_fail_kind(kind, res)}", program=src,
+                 error=repr(res)[:300], line=getattr(res, "lineno", None))
+        return out
+    cands = _find_span(res, ref_stmt, kind=type(ref_stmt))
+    if not cands:
+        out.fail(f"stmt:{ctx}|statement-not-found-at-its-span", program=src)
+        return out
+    tmp = core.Outcome()
+    compare_trees(ref_stmt, cands[0], tmp, src, prefix="stmt:",
+                  star_wrapping=ctx in ("stmt-monitor", "stmt-compose"),  # "outside behaviors"
+                  behavior_locals=True)
+    if tmp.failures:
+        # a difference the same statement shows as plain Python is not about the embedding
+        plain = core.Outcome()
+        ptxt = text + "\n"
+        k2, r2 = _outcome_of(ptxt)
+        if k2 == "ok":
+            compare_trees(ast.parse(ptxt), r2, plain, ptxt)
+        plain_sigs = {sig for sig, _ in plain.failures}
+        for sig, detail in tmp.failures:
+            bare = sig[len("stmt:"):]
+            out.failures.append((bare if bare in plain_sigs else sig, dict(detail, program=src)))
+    return out
+
+
 def judge(case):
     if case.get("kind") == "file":
         return judge_file(case)
+    if case.get("kind") == "stmt":
+        return judge_statement(case)
     return judge_fragment(case)
 
 
@@ -717,6 +855,23 @@ def plan(tier, seed, jobs):
     per = max(1, nfrag // nfrag_shards)
     shards += [{"kind": "frags", "seed": seed * 1000 + k, "n": per} for k in range(nfrag_shards)]
     return shards
+
+
+def statement_cases():
+    files = corpus.python_files()
+    return st.fixed_dictionaries({
+        "kind": st.just("stmt"),
+        "file": st.integers(0, len(files) - 1).map(lambda i: files[i]),
+        "node": st.integers(0, 5000),
+        "ctx": st.sampled_from(sorted(STMT_CONTEXTS) + ["stmt-interrupt", "stmt-try-body"]),
+        "pad": st.integers(0, 3),
+        "prefer_nested": st.booleans(),
+    })
+
+
+def all_fragment_cases():
+    # one case in four embeds a whole loop statement in a dynamic block
+    return st.integers(0, 3).flatmap(lambda k: statement_cases() if k == 0 else fragment_cases())
 
 
 def fragment_cases():
@@ -790,7 +945,7 @@ def run_shard(shard, tier):
             col.extra["corpus_exhaustive_file_shards"] = 1
         col.extra["file_shards"] = 1
     else:
-        core.hyp_search(fragment_cases(), judge_fragment, shard["n"], shard["seed"], col,
+        core.hyp_search(all_fragment_cases(), judge, shard["n"], shard["seed"], col,
                         known_sigs=shard.get("known_sigs", ()), case_timeout=120,
                         shrink_s=40 if tier == "quick" else 120)
     return col.result()
